@@ -11,7 +11,9 @@ extern crate rustc_abi;
 extern crate rustc_data_structures;
 extern crate rustc_driver;
 extern crate rustc_hir;
+extern crate rustc_infer;
 extern crate rustc_interface;
+extern crate rustc_trait_selection;
 extern crate rustc_middle;
 extern crate rustc_span;
 
@@ -26,7 +28,9 @@ use rustc_middle::ty::print::{
     with_no_trimmed_paths, with_no_visible_paths, with_resolve_crate_name,
 };
 use rustc_middle::ty::{self, Instance, Ty, TyCtxt, TypeVisitableExt, TypingEnv};
-use rustc_span::{ExpnKind, Span};
+use rustc_infer::infer::TyCtxtInferExt;
+use rustc_span::{sym, ExpnKind, Span};
+use rustc_trait_selection::infer::InferCtxtExt;
 use std::fmt::Write as _;
 use std::io::Write as _;
 
@@ -644,6 +648,24 @@ impl<'tcx> Cx<'tcx> {
             esc(&file),
             line
         );
+        // auto traits of fully concrete ADTs (type-level facts for the Send/Sync census)
+        let generics = tcx.generics_of(did);
+        let mut auto = String::from("null");
+        if generics.own_params.is_empty() && generics.parent.is_none() {
+            let ty = tcx.type_of(did).instantiate_identity().skip_norm_wip();
+            let infcx = tcx.infer_ctxt().build(ty::TypingMode::PostAnalysis);
+            let pe = tcx.param_env(did);
+            let send = tcx.get_diagnostic_item(sym::Send);
+            let sync = tcx.lang_items().sync_trait();
+            let chk = |t: Option<DefId>| -> String {
+                match t {
+                    Some(t) => format!("{}", infcx.type_implements_trait(t, [ty], pe).must_apply_modulo_regions()),
+                    None => "null".to_string(),
+                }
+            };
+            auto = format!("{{\"send\":{},\"sync\":{}}}", chk(send), chk(sync));
+        }
+        s.insert_str(s.len() - "\"variants\":[".len(), &format!("\"auto\":{},", auto));
         for (vi, v) in adt.variants().iter().enumerate() {
             if vi > 0 {
                 s.push(',');
